@@ -128,7 +128,98 @@ func Load(o Options) (*Prog, error) {
 		}
 		return a.String() < b.String()
 	})
+	p.indexSingleCallers()
 	return p, nil
+}
+
+// indexSingleCallers records, for every unexported repository function that is called
+// from exactly one static call site and is never used as a value (nor can be reached
+// through an interface), that call site. Canon resolves the parameters of such a
+// function to the arguments of its only caller, so that "extract method" refactorings
+// keep value identities intact.
+func (p *Prog) indexSingleCallers() {
+	sites := map[*ssa.Function][]ssa.CallInstruction{}
+	escaped := map[*ssa.Function]bool{}
+	ifaceMethods := map[string]bool{}
+	for _, pk := range p.Pkgs {
+		sc := pk.Types.Scope()
+		for _, nm := range sc.Names() {
+			if tn, ok := sc.Lookup(nm).(*types.TypeName); ok {
+				if it, ok := tn.Type().Underlying().(*types.Interface); ok {
+					for i := 0; i < it.NumMethods(); i++ {
+						ifaceMethods[it.Method(i).Name()] = true
+					}
+				}
+			}
+		}
+	}
+	for _, fn := range p.Funcs {
+		Instrs(fn, func(in ssa.Instruction) {
+			var callee *ssa.Function
+			if ci, ok := in.(ssa.CallInstruction); ok {
+				c := ci.Common()
+				if f := c.StaticCallee(); f != nil && !c.IsInvoke() {
+					if _, isFn := c.Value.(*ssa.Function); isFn {
+						callee = f
+						sites[f] = append(sites[f], ci)
+					}
+				}
+			}
+			for _, op := range in.Operands(nil) {
+				if f, ok := (*op).(*ssa.Function); ok {
+					if ci, isCall := in.(ssa.CallInstruction); isCall && f == callee && ci.Common().Value == ssa.Value(f) {
+						// the call position itself; arguments that are the same function escape
+						n := 0
+						for _, a := range ci.Common().Args {
+							if a == ssa.Value(f) {
+								n++
+							}
+						}
+						if n == 0 {
+							continue
+						}
+					}
+					escaped[f] = true
+				}
+			}
+		})
+	}
+	singleCaller = map[*ssa.Function]ssa.CallInstruction{}
+	for f, cs := range sites {
+		if len(cs) != 1 || escaped[f] || f.Parent() != nil || !InRepo(f) || f.Object() == nil || f.Object().Exported() {
+			continue
+		}
+		if f.Signature.Recv() != nil && ifaceMethods[f.Name()] {
+			continue
+		}
+		if f.Signature.Variadic() {
+			continue
+		}
+		singleCaller[f] = cs[0]
+	}
+}
+
+var singleCaller map[*ssa.Function]ssa.CallInstruction
+
+// SingleCallSite returns the only static call site of an unexported repository function
+// that is never used as a value (nil otherwise).
+func SingleCallSite(fn *ssa.Function) ssa.CallInstruction { return singleCaller[fn] }
+
+// ParamArg returns the argument bound to parameter x when x's function has a single,
+// static call site (nil otherwise).
+func ParamArg(x *ssa.Parameter) ssa.Value {
+	fn := x.Parent()
+	ci := singleCaller[fn]
+	if ci == nil {
+		return nil
+	}
+	c := ci.Common()
+	for i, pr := range fn.Params {
+		if pr == x && i < len(c.Args) {
+			return c.Args[i]
+		}
+	}
+	return nil
 }
 
 // InRepo reports whether fn (or the function it is nested in / instantiated from)
